@@ -221,6 +221,31 @@ func init() {
 			}
 			sb.WriteString("\ndef " + tr.def + " : List String := " + LeanStrList(tg) + "\n")
 		}
+		// round 12: no hidden derived state — every field (exported or not) of the structs the handlers keep
+		// state in; the dispatch of processEvent; the two handlers that never touch the storage state
+		for _, tr := range []struct {
+			f        *ast.File
+			typ, def string
+		}{{sm, "stateManager", "stateManagerFields"}, {sc, "storageCluster", "storageClusterFields"}, {db, "ShardAssignment", "shardAssignmentFields"}} {
+			tg, err := tags(tr.f, tr.typ)
+			if err != nil {
+				return "", err
+			}
+			sb.WriteString("\ndef " + tr.def + " : List String := " + LeanStrList(tg) + "\n")
+		}
+		for _, fr := range []fnRef{
+			{sm, "stateManager", "processEvent", "processEventShape"},
+			{sm, "stateManager", "onDatabaseCfgChange", "onDatabaseCfgChangeShape"},
+			{sm, "stateManager", "onDatabaseLimitsChange", "onDatabaseLimitsChangeShape"},
+			{sc, "storageCluster", "SetDatabaseLimits", "setDatabaseLimitsShape"},
+			{sc, "storageCluster", "GetState", "storageGetStateShape"},
+		} {
+			fd := FindFunc(fr.file, fr.recv, fr.name)
+			if fd == nil {
+				return "", fmt.Errorf("%s.%s not found", fr.recv, fr.name)
+			}
+			sb.WriteString("\ndef " + fr.def + " : List String := " + LeanStrList(c18StmtShapeFull(fd.Body.List)) + "\n")
+		}
 		// the broker-side consumer of the published state: which node a query for a shard is sent to
 		_, bsm, err := ParseFile(repo, "coordinator/broker/state_manager.go")
 		if err != nil {
